@@ -5,6 +5,7 @@ use vstd::prelude::*;
 use vstd::std_specs::cmp::OrdSpec;
 macro_rules! warn { ($($t:tt)*) => {}; }
 macro_rules! debug { ($($t:tt)*) => {}; }
+macro_rules! info_span { ($($t:tt)*) => { tracing::Span::current() }; }
 verus! {
 //@include shims/std_wide.rs
 use std::sync::Arc;
@@ -80,7 +81,7 @@ impl Router {
 
 // ======== C40
 pub struct Connecting; pub struct Connection; pub struct Accepting; pub struct AlpnError; pub struct AcceptError;
-pub struct Incoming;
+pub struct Incoming { pub id: int }   // ghost identity of one incoming connection attempt
 impl Incoming {
     #[verifier::external_body]
     pub fn accept(self) -> (r: Result<Accepting, AcceptError>) { unimplemented!() }
@@ -116,6 +117,66 @@ pub mod tracing {
         #[verifier::external_body] pub fn current() -> Span { unimplemented!() }
     }
 }
+
+// ---- the accept arm of the router's run loop (RouterBuilder::spawn): what the incoming filter's verdict leads to
+//@item iroh/src/protocol.rs enum IncomingFilterOutcome
+// rule R24: how an extracted arm continues the enclosing loop
+pub enum LoopCtl { Next, Continue, Break }
+pub struct RetryError { pub inc: Incoming }
+impl RetryError {
+    // the same incoming connection, handed back because it could not be retried
+    #[verifier::external_body]
+    pub fn into_incoming(self) -> (r: Incoming) ensures r == self.inc { unimplemented!() }
+}
+impl Incoming {
+    #[verifier::external_body] pub fn remote_addr_validated(&self) -> bool { unimplemented!() }
+    // Err (with the incoming handed back) if the address is already validated
+    #[verifier::external_body]
+    pub fn retry(self) -> (r: Result<(), RetryError>) ensures r matches Err(e) ==> e.inc == self { unimplemented!() }
+    #[verifier::external_body] pub fn refuse(self) { unimplemented!() }
+    #[verifier::external_body] pub fn ignore(self) { unimplemented!() }
+}
+// the user's filter: a function of the incoming connection (rule R25: the call through `Arc<dyn Fn>` is redirected to `call`)
+pub struct IncomingFilter { pub id: int }
+pub uninterp spec fn verdict(f: IncomingFilter, inc: Incoming) -> IncomingFilterOutcome;
+impl IncomingFilter {
+    #[verifier::external_body]
+    pub fn call(&self, inc: &Incoming) -> (r: IncomingFilterOutcome) ensures r == verdict(*self, *inc) { unimplemented!() }
+}
+impl CancellationToken {
+    #[verifier::external_body] pub fn child_token(&self) -> CancellationToken { unimplemented!() }
+}
+// the set of connection tasks: ghost log of the incoming connections handed to handle_connection
+pub struct JoinSet { pub handled: Seq<Incoming> }
+// an incoming connection may be handed to handle_connection (and from there to a protocol handler) only if there is
+// no filter or the filter's verdict on THIS incoming connection is Accept
+pub open spec fn admitted(filter: Option<IncomingFilter>, inc: Incoming) -> bool {
+    filter matches Some(f) ==> verdict(f, inc) is Accept
+}
+// rule R19: `join_set.spawn(async move { token.run_until_cancelled(handle_connection(incoming, protocols)).await }.instrument(span))`
+#[verifier::external_body]
+pub fn spawn_handle_connection(join_set: &mut JoinSet, incoming: Incoming, protocols: Arc<ProtocolMap>, token: CancellationToken, filter: &Option<IncomingFilter>)
+    requires admitted(*filter, incoming)   // [C40]
+    ensures final(join_set).handled == old(join_set).handled.push(incoming)
+{ unimplemented!() }
+
+//@arm iroh/src/protocol.rs RouterBuilder::spawn props=C40 name=accept_arm loopctl
+//@- incoming = endpoint.accept() =>
+//@| pub fn accept_arm(incoming: Option<Incoming>, incoming_filter: Option<IncomingFilter>, protocols: &Arc<ProtocolMap>, handler_cancel_token: &CancellationToken, join_set: &mut JoinSet, endpoint: &Endpoint) -> (ctl: LoopCtl)
+//@|     ensures
+//@|         // a connection is handed on exactly when there is no filter or the filter accepts it; nothing else ever is
+//@|         (incoming matches Some(inc) && admitted(incoming_filter, inc)) ==> final(join_set).handled == old(join_set).handled.push(incoming.unwrap()),
+//@|         !(incoming matches Some(inc) && admitted(incoming_filter, inc)) ==> final(join_set).handled == old(join_set).handled,
+//@|         // the loop ends only when the endpoint is closed
+//@|         ctl is Break <==> incoming is None,
+//@tail LoopCtl::Next
+//@rw R25 1
+//@- match filter(&incoming) {
+//@+ match filter.call(&incoming) {
+//@rwx R19 1
+//@- (?s)join_set\.spawn\(async move \{\s*token\.run_until_cancelled\(handle_connection\(incoming, protocols\)\)\.await\s*\}\.instrument\(span\)\);
+//@+ spawn_handle_connection(join_set, incoming, protocols, token, &incoming_filter);
+//@end
 
 //@fn iroh/src/protocol.rs handle_connection props=C40
 //@rw D1 1
